@@ -771,7 +771,8 @@ theorem Slot.lock_protocol (w w' : World) (c : TCtl) (f mode : Nat) :
       let w2 := w1.modFut f fun s => { s with slot := false }
       let w3 ← w2.releaseLock (w.futs.getD f {}).slotMutex
       if (w1.futs.getD f {}).slot then
-        (w3.setStage 2).branch (w3.arcInfo (w.futs.getD f {}).arc).obj .arcDec
+        let w4 := w3.modCtl w3.tid fun c => { c with taken := (w.futs.getD f {}).arc }
+        (w4.setStage 2).branch (w4.arcInfo (w.futs.getD f {}).arc).obj .arcDec
       else pure (w3.complete .unit))) ∧
     (c.stage = 1 → w.runOp c (.wClone f) = (do
       let (w1, okk) ← w.postAcquire (w.futs.getD f {}).slotMutex
@@ -928,6 +929,27 @@ theorem Waker.refcount_balance (w w' : World) (a : Nat) (s : ArcSt) (ha : a < w.
       all_goals cases he
   · intro h0
     rw [wakerDrop_eq, h1.2 h0]; rfl
+
+/-- `dropwaker` drops THE WAKER IT TOOK (`drop(slot.lock().take())`; repair of a defect of the twin found by the
+refinement proof `Props/Refine4.lean`: its last stage used to drop `(w.futs.getD f {}).arc` — the `Arc` of whatever
+`block_on` call was current at THAT stage — instead of the waker taken one stage earlier, and panicked "Arc is
+already released" when another call had started in between).  Stage 1 empties the slot under its mutex (see
+`Slot.lock_protocol`) and, if a waker was registered, records it — the `Arc` of the call in progress at stage 1 — in
+the thread's control record (`taken`) and branches on its `ref_dec`; it completes at once (no drop) if nothing was
+registered.  Every later stage is ONE `wakerDrop` of `c.taken`, whatever the futures' table says by then, followed
+by the completion: as for `wake`, `awWake`, `awtake`. -/
+theorem Waker.dropWaker_drops_the_waker_taken (w w' : World) (c : TCtl) (f : Nat) :
+    (2 ≤ c.stage → w.runOp c (.dropWaker f) = (do
+      let w1 ← w.wakerDrop c.taken
+      pure (w1.complete .unit))) ∧
+    (c.stage = 1 → w.runOp c (.dropWaker f) = .ok w' → f < w.futs.length → w.tid < w.ctl.length →
+      (∃ w1, w.postAcquire (w.futs.getD f {}).slotMutex = .ok (w1, true)) ∧
+      (w'.futs.getD f {}).slot = false ∧
+      ((w.futs.getD f {}).slot = true →
+        (w'.ctlOf w.tid).taken = (w.futs.getD f {}).arc ∧ (w'.ctlOf w.tid).stage = 2) ∧
+      ((w.futs.getD f {}).slot = false →
+        (w'.ctlOf w.tid).stage = 0 ∧ (w'.ctlOf w.tid).pc = (w.ctlOf w.tid).pc + 1)) :=
+  ⟨fun hs => dropWaker_stage2 w c f hs, fun hs h hf ht => dropWaker_take hs h hf ht⟩
 
 /-! ## 6. non-vacuity -/
 
